@@ -364,6 +364,8 @@ impl LpgStore {
     /// Creates a new node with the given labels within a transaction context.
     #[cfg(not(feature = "tiered-storage"))]
     pub fn create_node_versioned(&self, labels: &[&str], epoch: EpochId, tx_id: TxId) -> NodeId {
+        #[cfg(grafeo_verif)]
+        grafeo_common::verif::yield_point("lpg.cn.id");
         let id = NodeId::new(self.next_node_id.fetch_add(1, Ordering::Relaxed));
 
         let mut record = NodeRecord::new(id, epoch);
@@ -372,6 +374,8 @@ impl LpgStore {
         // Store labels in node_labels map and label_index
         let mut node_label_set = FxHashSet::default();
         for label in labels {
+            #[cfg(grafeo_verif)]
+            grafeo_common::verif::yield_point("lpg.cn.label");
             let label_id = self.get_or_create_label_id(*label);
             node_label_set.insert(label_id);
 
@@ -384,10 +388,14 @@ impl LpgStore {
         }
 
         // Store node's labels
+        #[cfg(grafeo_verif)]
+        grafeo_common::verif::yield_point("lpg.cn.nl");
         self.node_labels.write().insert(id, node_label_set);
 
         // Create version chain with initial version
         let chain = VersionChain::with_initial(record, epoch, tx_id);
+        #[cfg(grafeo_verif)]
+        grafeo_common::verif::yield_point("lpg.cn.node");
         self.nodes.write().insert(id, chain);
         id
     }
@@ -672,6 +680,8 @@ impl LpgStore {
     /// Deletes a node at a specific epoch.
     #[cfg(not(feature = "tiered-storage"))]
     pub fn delete_node_at_epoch(&self, id: NodeId, epoch: EpochId) -> bool {
+        #[cfg(grafeo_verif)]
+        grafeo_common::verif::yield_point("lpg.dn.start");
         let mut nodes = self.nodes.write();
         if let Some(chain) = nodes.get_mut(&id) {
             // Check if visible at this epoch (not already deleted)
@@ -704,11 +714,15 @@ impl LpgStore {
             drop(node_labels);
             // Take the node out of every property index before its values are dropped,
             // otherwise index lookups keep returning the deleted node.
+            #[cfg(grafeo_verif)]
+            grafeo_common::verif::yield_point("lpg.dn.props");
             let indexed_keys: Vec<PropertyKey> =
                 self.property_indexes.read().keys().cloned().collect();
             for key in &indexed_keys {
                 self.update_property_index_on_remove(id, key);
             }
+            #[cfg(grafeo_verif)]
+            grafeo_common::verif::yield_point("lpg.dn.remove_all");
             self.node_properties.remove_all(id);
 
             // Note: Caller should use delete_node_edges() first if detach is needed
@@ -860,8 +874,12 @@ impl LpgStore {
         let prop_key: PropertyKey = key.into();
 
         // Update property index before setting the property (needs to read old value)
+        #[cfg(grafeo_verif)]
+        grafeo_common::verif::yield_point("lpg.sp.index");
         self.update_property_index_on_set(id, &prop_key, &value);
 
+        #[cfg(grafeo_verif)]
+        grafeo_common::verif::yield_point("lpg.sp.set");
         self.node_properties.set(id, prop_key, value);
 
         // Update props_count in record
@@ -1378,6 +1396,8 @@ impl LpgStore {
     /// or already has the label.
     #[cfg(not(feature = "tiered-storage"))]
     pub fn add_label(&self, node_id: NodeId, label: &str) -> bool {
+        #[cfg(grafeo_verif)]
+        grafeo_common::verif::yield_point("lpg.al.check");
         let epoch = self.current_epoch();
 
         // Check if node exists
@@ -1392,6 +1412,8 @@ impl LpgStore {
         drop(nodes);
 
         // Get or create label ID
+        #[cfg(grafeo_verif)]
+        grafeo_common::verif::yield_point("lpg.al.nl");
         let label_id = self.get_or_create_label_id(label);
 
         // Add to node_labels map
@@ -1406,6 +1428,8 @@ impl LpgStore {
         drop(node_labels);
 
         // Add to label_index
+        #[cfg(grafeo_verif)]
+        grafeo_common::verif::yield_point("lpg.al.index");
         let mut index = self.label_index.write();
         if (label_id as usize) >= index.len() {
             index.resize(label_id as usize + 1, FxHashMap::default());
@@ -1481,6 +1505,8 @@ impl LpgStore {
     /// or doesn't have the label.
     #[cfg(not(feature = "tiered-storage"))]
     pub fn remove_label(&self, node_id: NodeId, label: &str) -> bool {
+        #[cfg(grafeo_verif)]
+        grafeo_common::verif::yield_point("lpg.rl.check");
         let epoch = self.current_epoch();
 
         // Check if node exists
@@ -1495,6 +1521,8 @@ impl LpgStore {
         drop(nodes);
 
         // Get label ID
+        #[cfg(grafeo_verif)]
+        grafeo_common::verif::yield_point("lpg.rl.nl");
         let label_id = {
             let label_ids = self.label_to_id.read();
             match label_ids.get(label) {
@@ -1515,6 +1543,8 @@ impl LpgStore {
         drop(node_labels);
 
         // Remove from label_index
+        #[cfg(grafeo_verif)]
+        grafeo_common::verif::yield_point("lpg.rl.index");
         let mut index = self.label_index.write();
         if (label_id as usize) < index.len() {
             index[label_id as usize].remove(&node_id);
@@ -1679,6 +1709,8 @@ impl LpgStore {
         epoch: EpochId,
         tx_id: TxId,
     ) -> EdgeId {
+        #[cfg(grafeo_verif)]
+        grafeo_common::verif::yield_point("lpg.ce.id");
         let id = EdgeId::new(self.next_edge_id.fetch_add(1, Ordering::Relaxed));
         let type_id = self.get_or_create_edge_type_id(edge_type);
 
@@ -1687,8 +1719,12 @@ impl LpgStore {
         self.edges.write().insert(id, chain);
 
         // Update adjacency
+        #[cfg(grafeo_verif)]
+        grafeo_common::verif::yield_point("lpg.ce.fwd");
         self.forward_adj.add_edge(src, dst, id);
         if let Some(ref backward) = self.backward_adj {
+            #[cfg(grafeo_verif)]
+            grafeo_common::verif::yield_point("lpg.ce.bwd");
             backward.add_edge(dst, src, id);
         }
 
@@ -1892,6 +1928,8 @@ impl LpgStore {
     /// Deletes an edge at a specific epoch.
     #[cfg(not(feature = "tiered-storage"))]
     pub fn delete_edge_at_epoch(&self, id: EdgeId, epoch: EpochId) -> bool {
+        #[cfg(grafeo_verif)]
+        grafeo_common::verif::yield_point("lpg.de.start");
         let mut edges = self.edges.write();
         if let Some(chain) = edges.get_mut(&id) {
             // Get the visible record to check if deleted and get src/dst
@@ -1913,8 +1951,12 @@ impl LpgStore {
             drop(edges); // Release lock
 
             // Mark as deleted in adjacency (soft delete)
+            #[cfg(grafeo_verif)]
+            grafeo_common::verif::yield_point("lpg.de.fwd");
             self.forward_adj.mark_deleted(src, id);
             if let Some(ref backward) = self.backward_adj {
+                #[cfg(grafeo_verif)]
+                grafeo_common::verif::yield_point("lpg.de.bwd");
                 backward.mark_deleted(dst, id);
             }
 
